@@ -211,8 +211,10 @@ StepOf(k) == LET raw == OpStep(k, Prepare(ops[k]), ph # "gone")
                                                     sid |-> 0, c |-> ops[k].c]]
              IN [o |-> raw.o, enq |-> enq, res |-> raw.res, fin |-> raw.fin]
 
+InvalidCall(c) == c.kind \in {"sub", "unsub"} /\ c.fl = <<>>
+
 PollOp ==
-  /\ Ok /\ Ev("pollop") /\ Ln.k \in DOMAIN ops
+  /\ Ok /\ Ev("pollop") /\ Ln.k \in DOMAIN ops /\ ~(ops[Ln.k].st = "built" /\ InvalidCall(ops[Ln.k].c))
   /\ LET k == Ln.k
          st == StepOf(k)
      IN /\ SameRes(st.res, Ln.res)
@@ -227,6 +229,15 @@ PollOp ==
   /\ Adv
   /\ UNCHANGED <<mode, verdict, cfg, S, netIn, netEnd, wrm, ph, inCtx, retd, nh, discW, resumeQ, supp, secsAgo, blockedOn>>
 
+\* a request missing a mandatory part (subscribe / unsubscribe without a topic filter) is refused by the handle itself at its
+\* first poll: an error, nothing queued (nothing written - C01 checks that on the wire side)
+PollOpRefusedLocally ==
+  /\ Ok /\ Ev("pollop") /\ Ln.k \in DOMAIN ops /\ ops[Ln.k].st = "built" /\ InvalidCall(ops[Ln.k].c)
+  /\ Ln.first = 1 /\ Ln.res.r = "err"
+  /\ ops' = DropKey(ops, Ln.k)
+  /\ Adv
+  /\ UNCHANGED <<mode, verdict, cfg, S, msgQ, netIn, netEnd, wrm, ph, inCtx, retd, sts, nh, discW, g, resumeQ, supp, secsAgo, blockedOn>>
+
 SameItem(a, b) == a.qos = b.qos /\ a.dup = b.dup /\ a.retain = b.retain /\ a.tag = b.tag /\ a.x = b.x
 
 StExpected(s) == IF s.buf # <<>> THEN "item" ELSE IF s.tx THEN "pending" ELSE "end"
@@ -238,7 +249,7 @@ PollSt ==
         /\ (Ln.res.r = "item" => SameItem(Head(s.buf), Ln.res.pk))        \* C07: intact, in order
         /\ (Ln.woken = 1 \/ Ln.res.r = "pending")
         /\ sts' = CASE Ln.res.r = "item" -> [sts EXCEPT ![Ln.k].buf = Tail(@),
-                                                        ![Ln.k].seen2 = IF Ln.res.pk.qos = 2 THEN @ \cup {Ln.res.pk.x} ELSE @]
+                                                        ![Ln.k].seen2 = IF Ln.res.pk.qos = 2 THEN @ \cup {Ln.res.pk.x, "pd:" \o Ln.res.pk.pd} ELSE @]
                     [] Ln.res.r = "end"  -> DropKey(sts, Ln.k)
                     [] OTHER -> sts
   /\ Adv
@@ -547,7 +558,7 @@ Info ==
                  resumeQ, supp, secsAgo, blockedOn>>
 
 Normal ==
-  \/ Call \/ Clone \/ Inject \/ NetEnd \/ WrMode \/ Drop \/ PollOp \/ PollSt
+  \/ Call \/ Clone \/ Inject \/ NetEnd \/ WrMode \/ Drop \/ PollOp \/ PollOpRefusedLocally \/ PollSt
   \/ CtxBegin \/ TakeResumeDecide \/ TakeResume \/ TakeMsgSilent \/ TakeMsgSkipCancelled \/ TakeMsgWrite \/ TakeMsgWriteFails
   \/ TakePktSilent \/ TakePktWrite \/ TakePktWriteFails \/ TakePktBlocked \/ TakeOwed \/ TakeOwedFails
   \/ TakeNetEnd \/ TakeHandlesGone
@@ -573,7 +584,8 @@ LostWakeupAhead(i) ==
   IF i > N \/ Rec[i].e \in {"reset", "end"} THEN FALSE
   ELSE IF Rec[i].e = "ctxb" THEN Rec[i].woken = 0 /\ i + 1 <= N /\ Rec[i + 1].e = "wr"
   ELSE LostWakeupAhead(i + 1)
-Stall(detail) == IF LostWakeupAhead(l + 1) THEN V(<<"C03", "C16">>, "lost-wakeup", detail) ELSE V("C03", "unread-input", detail)
+\* (input that has arrived and is not being read is a stall with unread input whatever its cause: C04 as well)
+Stall(detail) == IF LostWakeupAhead(l + 1) THEN V(<<"C03", "C16", "C04">>, "lost-wakeup", detail) ELSE V(<<"C03", "C04">>, "unread-input", detail)
 
 HeadNotWritten ==
   LET m == Head(msgQ) nx == NextPollOf(m.op, l) IN
@@ -602,15 +614,17 @@ ClassifyWr(pk) ==
   IF ph # "run" \/ discW THEN V("C13", "write-after-end", pk.t)
   ELSE IF pk.t = "MALFORMED" THEN
          \* whatever was meant, it is not a well-formed packet (C01); when a retransmission (C17) or an acknowledgement
-         \* (C08) was due at this point that obligation is broken by the same bytes
+         \* (C08) was due at this point that obligation is broken by the same bytes; and a request that is within the
+         \* limits has not been "written in full" (C12)
          V(<<"C01">> \o (IF resumeQ # <<>> /\ ~Deciding THEN <<"C17">> ELSE <<>>)
+                    \o (IF resumeQ = <<>> /\ msgQ # <<>> THEN <<"C12">> ELSE <<>>)
                     \o (IF resumeQ = <<>> /\ netIn # <<>> /\ HandlePkt(S, Head(netIn)).wr # <<>> THEN <<"C08">> ELSE <<>>),
            "malformed-packet", pk.x)
   ELSE IF resumeQ # <<>> /\ ~Deciding THEN V("C17", "resume-mismatch", <<pk.t, pk.id, pk.dup, Head(resumeQ).t, Head(resumeQ).id>>)
   ELSE IF cfg.recon = 1 /\ ((pk.t = "PUBLISH" /\ pk.dup = 1) \/ (pk.t = "PUBREL" /\ (msgQ = <<>> \/ Head(msgQ).pk.t # "PUBREL")))
        THEN V("C17", "unexpected-retransmission", <<pk.t, pk.id>>)
   ELSE IF pk.t \in {"PUBACK", "PUBREC", "PUBCOMP"} THEN
-         V("C08", "unexpected-ack", <<pk.t, pk.id, IF netIn # <<>> THEN <<Head(netIn).t, Head(netIn).id, Head(netIn).qos>> ELSE <<>> >>)
+         V(WithC15("C08"), "unexpected-ack", <<pk.t, pk.id, IF netIn # <<>> THEN <<Head(netIn).t, Head(netIn).id, Head(netIn).qos>> ELSE <<>> >>)
   ELSE IF pk.t = "PUBLISH" /\ RefusedBy(pk.tag, "QuotaExceeded") THEN V("C10", "written-over-quota", <<pk.id, S.R>>)
   ELSE IF RefusedType(pk, "MaximumPacketSizeExceeded") THEN V("C12", "written-over-limit", <<pk.t, pk.len, S.M>>)
   ELSE IF msgQ # <<>> /\ (Head(msgQ).pk.t # pk.t \/ (pk.t = "PUBLISH" /\ Head(msgQ).pk.tag # pk.tag))
@@ -637,7 +651,7 @@ ExpectedWriteMissing ==
   ELSE IF netIn # <<>> /\ HandlePkt(S, Head(netIn)).wr # <<>> /\ (msgQ = <<>> \/ Ln.unread = 0)
        THEN V("C08", "ack-missing", <<Head(netIn).t, Head(netIn).qos, Head(netIn).id, Len(Head(netIn).sids)>>)
   ELSE IF msgQ # <<>> THEN HeadNotWritten
-  ELSE V("C03", "stalled", <<Ln.unread>>)
+  ELSE V(<<"C03", "C04">>, "stalled", <<Ln.unread>>)
 
 \* a panic of the context is C04's concern whatever caused it; when the packet being handled is one the client owed an
 \* acknowledgement (C08) or a delivery (C07) for, that obligation is broken by the same step (likewise when run() ends
@@ -662,14 +676,17 @@ ClassifyCtxEnd(res) ==
   ELSE \* returned
        IF retd = <<>> THEN
          (IF res.kind = "InternalError" THEN V("C15", "run-returned-internal-error", <<>>)
-          ELSE IF res.kind = "SocketClosed" /\ netEnd = "open" THEN V("C03", "early-end-of-stream", Ln.unread)
+          ELSE IF res.kind = "SocketClosed" /\ netEnd = "open"
+               THEN V(<<"C03">> \o (IF inCtx = "spur" THEN <<"C16">> ELSE <<>>), "early-end-of-stream", Ln.unread)
           \* (run() ending with Ok although no DISCONNECT was written and none came, after a request was refused for its
           \* size: the refusal has stopped the context, later requests that fit are never written - C12 as well)
           \* (and after a cancellation: nothing but the cancelled caller's gone channel distinguishes this run from one that
           \* keeps serving - C15 as well)
           \* (run() gone with input unread while the reference, which has handled all of it, holds acknowledgements that
           \* operations have not collected yet: some operation whose acknowledgement did arrive is left pending - C05 as well)
+          \* (and when it happens in a poll without wake-up, that poll had an effect: C16)
           ELSE V(<<"C13">> \o OwedTags \o (IF res.kind = "Ok" /\ g.szany > 0 /\ ~discW THEN <<"C12">> ELSE <<>>)
+                          \o (IF inCtx = "spur" THEN <<"C16">> ELSE <<>>)
                           \o (IF Ln.unread > 0 /\ \E k \in DOMAIN ops : ops[k].slot # <<>> /\ ops[k].slot[1].k = "ack" THEN <<"C05">> ELSE <<>>)
                           \o (IF g.ncancel > 0 /\ HandlesAlive THEN <<"C15">> ELSE <<>>), "unexpected-return", res.kind))
        ELSE V("C13", "wrong-return", <<retd[1].kind, retd[1].rc, res.kind, res.rc>>)
@@ -686,7 +703,9 @@ ClassifyPollOp ==
          \* a poll without wake-up must have no effect: here it completed the operation (with whatever result)
          V(<<"C16">> \o (IF got.kind = "ContextExited" THEN <<"C14">> ELSE <<"C05">>), "completed-by-a-poll-without-wakeup", <<ops[Ln.k].kind, got.r, got.kind>>)
     ELSE IF want.r = "pending" THEN
-        (IF got.kind = "ContextExited" THEN V("C14", "context-exited-while-alive", Ln.k)
+        \* (the operation is told "context exited" although the context is serving and its acknowledgement has not
+        \* arrived: it completes without its own acknowledgement - C05 as well)
+        (IF got.kind = "ContextExited" THEN V(<<"C14", "C05">>, "context-exited-while-alive", Ln.k)
          \* (for a publish this is also its handshake going wrong: it reported an outcome before the acknowledgement that
          \* decides it - e.g. a PUBREC below 0x80 taken for a refusal)
          ELSE V((IF ops[Ln.k].kind = "pub" THEN <<"C05", "C06">> ELSE <<"C05">>) \o (IF g.ncancel > 0 THEN <<"C15">> ELSE <<>>),
@@ -718,7 +737,9 @@ ClassifyPollSt ==
     IF got.r = "panic" THEN V("C04", "panic-in-stream", Ln.k)
     ELSE IF got.r = want /\ (want # "item" \/ SameItem(Head(s.buf), got.pk)) /\ Ln.woken = 0
          THEN V("C16", "progress-without-wakeup", <<"stream", Ln.k>>)
-    ELSE IF got.r = "item" /\ got.pk.qos = 2 /\ got.pk.x \in supp /\ got.pk.x \in s.seen2
+    \* (this stream has yielded that very message before - recognised by its content, or, when the re-delivery carries the
+    \* topic in another form (alias alone), by its payload)
+    ELSE IF got.r = "item" /\ got.pk.qos = 2 /\ got.pk.x \in supp /\ (got.pk.x \in s.seen2 \/ ("pd:" \o got.pk.pd) \in s.seen2)
          THEN V("C09", "redelivered", <<got.pk.tag>>)        \* this stream has yielded that very message before
     ELSE IF want = "end" /\ got.r = "pending" THEN V("C14", "stream-hangs-after-context-gone", Ln.k)
     ELSE IF want = "pending" /\ got.r = "end" THEN V(WithC15("C07"), "ended-early", Ln.k)
@@ -739,7 +760,7 @@ ClassifyQuiescent ==
   ELSE IF \E k \in DOMAIN sts : sts[k].pollable /\ (sts[k].buf # <<>> \/ ~sts[k].tx)
   THEN (IF ph = "gone" THEN V("C14", "stream-not-woken", <<>>) ELSE V(WithC15("C07"), "item-not-delivered", <<>>))
   ELSE IF retd # <<>> THEN V("C13", "no-return", retd[1].kind)
-  ELSE IF netIn = <<>> /\ msgQ = <<>> /\ Ln.unread > 0 THEN V("C03", "unread-input", Ln.unread)
+  ELSE IF netIn = <<>> /\ msgQ = <<>> /\ Ln.unread > 0 THEN V(<<"C03", "C04">>, "unread-input", Ln.unread)
   ELSE ExpectedWriteMissing
 
 Classify ==
@@ -760,6 +781,7 @@ Classify ==
                              ELSE V("C13", "first-response", <<Ln.phase, Ln.inj, Ln.rc, Ln.res.kind, Ln.res.rc>>)
     [] Ln.e = "reconnect" /\ Ln.ok = 0 /\ ph = "ret"
                           -> V("C13", "connect-on-a-new-transport-did-not-return-the-connack", <<>>)
+    [] Ln.e = "livelock"  -> V(<<"C16", "C04">>, "task-keeps-waking-itself-without-progress", <<>>)
     [] OTHER              -> V("TOOL", "unmatched-environment-line", Ln.e)
 
 Diverge ==
